@@ -226,6 +226,8 @@ def compare_form(v):
     for l in leaves.values():
         if l.op != 'cmp' or not isinstance(l.args[1], RF) or not isinstance(l.args[2], RF):
             return None
+        if dtab.is_discr_eq(l) is not None:
+            return None               # a test on the variant of a sign enum, not a comparison of the determinant (C11's sign table reads it)
         d = l.args[1] - l.args[2]
         if I.single_atom(d) is not None or d.is_const():
             return None
